@@ -486,3 +486,110 @@ def pg_mutants(rng, ty, bits, v):
         out.append(img(len(big), len(big) - 1, 0, 0, big))
         out += [b'', b'\0' * 7, b'\0' * 8, b'\0' * 9]
     return out
+
+
+# ------------------------------------------------------------------------------------------------
+# (G) mode boundaries and prefix constants of the hand-written codec logic, as data
+
+def _num(tok):
+    tok = tok.strip().replace('_', '')
+    return int(tok, 0)
+
+
+def translate_codec_tables(repo, lean):
+    """SCALE compact (`src/support/scale.rs`): the bit-length ranges of `size_hint` and `encode_to` with their sizes / integer
+    widths / mode tags, the big-integer prefix constants, `COMPACT_BITS_LIMIT`, the two range tests of the decoder; alloy-rlp
+    (`src/support/alloy_rlp.rs`): the single-byte threshold of `length()` and `encode()`, `MAX_BITS`. Emitted as
+    `Gen/CodecTable.lean`; `Gen/CodecTableFacts.lean` re-proves on every run that they are the constants the codec models were
+    proved with (`Props/C16.gen_codec_tables`)."""
+    import os, re
+    tpath = os.path.join(lean, 'Ruint', 'Gen', 'CodecTable.lean')
+    fpath = os.path.join(lean, 'Ruint', 'Gen', 'CodecTableFacts.lean')
+    try:
+        sc = open(os.path.join(repo, 'src', 'support', 'scale.rs')).read()
+        sc = re.sub(r'//[^\n]*', '', sc)
+        limit = _num(re.search(r'const COMPACT_BITS_LIMIT: usize = ([^;]+);', sc).group(1))
+        hint = sc[sc.index('fn size_hint(&self) -> usize {\n        match self.0.bit_len()'):]
+        hint = hint[:hint.index('\n    }\n')]
+        hint_modes = [(_num(a), _num(b), _num(c)) for a, b, c in re.findall(r'(\d+)\.\.=(\d+) => (\d+),', hint)]
+        if not re.search(r'_ => self\.0\.byte_len\(\) \+ 1,', hint):
+            raise ValueError('size_hint default arm')
+        enc = sc[sc.index('fn encode_to<T: Output + ?Sized>(&self, dest: &mut T)'):]
+        enc = enc[:enc.index('\n    }\n')]
+        enc = enc[enc.rindex('match self.0.bit_len() {'):]
+        arms = re.findall(r'(\d+)\.\.=(\d+) => (.*?),\n', enc)
+        enc_modes = []
+        for lo, hi, rhs in arms:
+            m1 = re.fullmatch(r'dest\.push_byte\(\(self\.0\.to::<u(\d+)>\(\)\) << (\d+)\)', rhs.strip())
+            m2 = re.fullmatch(r'\(\(self\.0\.to::<u(\d+)>\(\) << (\d+)\) \| (0b[01]+|\d+)\)\.encode_to\(dest\)', rhs.strip())
+            if m1:
+                enc_modes.append((_num(lo), _num(hi), int(m1.group(1)), int(m1.group(2)), 0))
+            elif m2:
+                enc_modes.append((_num(lo), _num(hi), int(m2.group(1)), int(m2.group(2)), _num(m2.group(3))))
+            else:
+                raise ValueError('encode_to arm not understood: %r' % rhs)
+        mb = re.search(r'assert!\(\s*bytes_needed >= (\d+),', enc)
+        mp = re.search(r'dest\.push_byte\((0b[01]+|\d+) \+ \(\(bytes_needed - (\d+)\) << (\d+)\) as u8\);', enc)
+        big = (_num(mb.group(1)), _num(mp.group(1)), _num(mp.group(2)), _num(mp.group(3)))
+        dec = sc[sc.index('impl<const BITS: usize, const LIMBS: usize> Decode for CompactUint<BITS, LIMBS>'):]
+        r1 = re.search(r'if \((0b[01_]+)\.\.=(0b[01_]+)\)\.contains\(&x\)', dec)
+        r2 = re.search(r'if \((0b[01_]+)\.\.=u32::MAX >> (\d+)\)\.contains\(&x\)', dec)
+        r3 = re.search(r'if x > u32::MAX >> (\d+) \{', dec)
+        dec_consts = (_num(r1.group(1)), _num(r1.group(2)), _num(r2.group(1)), _num(r2.group(2)), _num(r3.group(1)))
+        al = open(os.path.join(repo, 'src', 'support', 'alloy_rlp.rs')).read()
+        al = re.sub(r'//[^\n]*', '', al)
+        mx = re.search(r'const MAX_BITS: usize = (\d+) \* (\d+);', al)
+        max_bits = int(mx.group(1)) * int(mx.group(2))
+        ln = re.search(r'fn length\(&self\) -> usize \{\s*let bits = self\.bit_len\(\);\s*if bits <= (\d+) \{\s*1\s*\} else \{\s*let bytes = \(bits \+ (\d+)\) / (\d+);\s*bytes \+ length_of_length\(bytes\)', al)
+        rlp_len = (int(ln.group(1)), int(ln.group(2)), int(ln.group(3)))
+        en = re.search(r'match self\.bit_len\(\) \{\s*0 => out\.put_u8\(EMPTY_STRING_CODE\),\s*(\d+)\.\.=(\d+) => \{', al)
+        rlp_single = (int(en.group(1)), int(en.group(2)))
+        cmp_max = re.search(r'if bits (>|>=|<|<=) MAX_BITS \{', al).group(1)
+
+        def lst(rows):
+            return '[' + ', '.join('(' + ', '.join(str(x) for x in r) + ')' for r in rows) + ']'
+        new = '\n'.join([
+            '/-! GENERATED by tools/props/codec_common.py (`translate_codec_tables`) from `src/support/scale.rs` and',
+            '    `src/support/alloy_rlp.rs` — do not edit. -/',
+            'namespace Ruint.Gen.CodecTable', '',
+            '/-- `CompactRefUint::size_hint`: (bit_len lo, hi, size); other bit lengths: `byte_len() + 1` -/',
+            'def scaleHintModes : List (Nat × Nat × Nat) := ' + lst(hint_modes),
+            '/-- `CompactRefUint::encode_to`: (bit_len lo, hi, width of the `to::<uN>()`, left shift, mode tag OR-ed in) -/',
+            'def scaleEncModes : List (Nat × Nat × Nat × Nat × Nat) := ' + lst(enc_modes),
+            '/-- big-integer mode: (asserted minimum of bytes_needed, prefix constant, subtracted offset, left shift) -/',
+            'def scaleBig : Nat × Nat × Nat × Nat := (%d, %d, %d, %d)' % big,
+            'def scaleBitsLimit : Nat := %d' % limit,
+            '/-- decoder: mode-1 accepted range (lo, hi), mode-2 lower bound and the shift of `u32::MAX >> k`, shift of the 4-byte big-integer test -/',
+            'def scaleDec : Nat × Nat × Nat × Nat × Nat := (%d, %d, %d, %d, %d)' % dec_consts,
+            '/-- alloy-rlp `length()`: (single-byte threshold on bit_len, rounding addend, divisor) -/',
+            'def rlpLen : Nat × Nat × Nat := (%d, %d, %d)' % rlp_len,
+            '/-- alloy-rlp `encode()`: the single-byte arm `lo..=hi` on bit_len -/',
+            'def rlpSingle : Nat × Nat := (%d, %d)' % rlp_single,
+            'def rlpMaxBits : Nat := %d' % max_bits,
+            '/-- the comparison of `bits` with MAX_BITS that selects the long form: 0 `>`, 1 `>=`, 2 `<`, 3 `<=` -/',
+            'def rlpLongCmp : Nat := %d' % {'>': 0, '>=': 1, '<': 2, '<=': 3}[cmp_max], '',
+            'end Ruint.Gen.CodecTable', ''])
+        newf = '\n'.join([
+            'import Ruint.Gen.CodecTable',
+            '/-! GENERATED by tools/props/codec_common.py — do not edit. Re-proved on every run: the constants extracted from the',
+            '    current sources are the ones the codec models (Model/Codec/Scale.lean, Rlp.lean) were proved with. -/',
+            'namespace Ruint.Gen.CodecTable', '',
+            'theorem tables_expected :',
+            '    scaleHintModes = [(0, 6, 1), (7, 14, 2), (15, 30, 4)]',
+            '    ∧ scaleEncModes = [(0, 6, 8, 2, 0), (7, 14, 16, 2, 1), (15, 30, 32, 2, 2)]',
+            '    ∧ scaleBig = (4, 3, 4, 2) ∧ scaleBitsLimit = 536',
+            '    ∧ scaleDec = (63, 16383, 16383, 2, 2)',
+            '    ∧ rlpLen = (7, 7, 8) ∧ rlpSingle = (1, 7) ∧ rlpMaxBits = 440 ∧ rlpLongCmp = 0 := by decide', '',
+            'end Ruint.Gen.CodecTable', ''])
+        changed = False
+        for pth, txt in ((tpath, new), (fpath, newf)):
+            old = open(pth).read() if os.path.exists(pth) else ''
+            if old != txt:
+                open(pth, 'w').write(txt)
+                changed = True
+        return {'changed': changed, 'obligations': ['Ruint.Gen.CodecTable.tables_expected'],
+                'tables': {'scale_hint': hint_modes, 'scale_enc': enc_modes, 'scale_big': big, 'scale_limit': limit,
+                           'scale_dec': dec_consts, 'rlp_len': rlp_len, 'rlp_single': rlp_single, 'rlp_max_bits': max_bits,
+                           'rlp_long_cmp': cmp_max}}
+    except Exception as e:  # anchor vanished: the tie is unavailable
+        return {'changed': False, 'unavailable': 'codec table anchors not found: %r' % (e,), 'obligations': []}
